@@ -53,7 +53,7 @@ def required(tier):
     cl = ['route:ordinary', 'route:antimeridian', 'route:polar', 'route:high',
           'route:above-cruise', 'route:close', 'capacity:aligned', 'capacity:not-aligned',
           'outcome:flown', 'outcome:rejected', 'mass-iteration:on', 'mass-iteration:off',
-          'resampled:own-times', 'table:sample', 'table:variant', 'starting-mass:given',
+          'resampled:own-times', 'table:sample', 'table:variant', 'table:low-ceiling', 'starting-mass:given',
           'starting-mass:computed', 'workload:repository-tests-under-contract']
     return {'classes': cl, 'counters': {'contract_evaluations': 100}, 'evaluations': 300}
 
@@ -93,6 +93,9 @@ def run_shard(spec, rec):
         models = [('sample', PerformanceModel.from_data(base))]
         for _ in range(3):
             models.append(('variant', PerformanceModel.from_data(fg.variant_model(rng0, base))))
+        for ceil in (10000, 12000, 16000):
+            models.append(('low-ceiling', PerformanceModel.from_data(
+                fg.special_model(base, ceiling_ft=ceil))))
         kinds = ['ordinary', 'ordinary', 'antimeridian', 'polar', 'near-antipodal', 'high',
                  'above-cruise', 'close', 'below-sea-level', None, None]
         ks = [spec['only']] if 'only' in spec else range(spec['n'])
